@@ -417,7 +417,9 @@ def owner(unit, f):
         if f.kind in SAFETY_KINDS:
             return "C04"
         # the controller keeps the header frame and a registered status (C10 / C05 / C04); everything else functional is C02
-        return ("C10", "C05", "C04") if "frame_ok" in f.snippet or "err_registered" in f.snippet else "C02"
+        if "frame_status" in f.snippet or "err_registered" in f.snippet:
+            return "C05"
+        return ("C10", "C05") if "frame_headers" in f.snippet or "frame_ok" in f.snippet else "C02"
     if unit == "mime":
         return "C04" if f.kind in SAFETY_KINDS else "C02"
     if unit == "range_parse":
@@ -470,8 +472,10 @@ def owner(unit, f):
             return ("C04", "C20") if unit == "forms" else "C04"
         if "forwards_unchanged" in sn:
             return ("C10", "C05", "C03", "C02", "C09", "C11", "C04")
-        if "frame_ok" in sn or "std_headers" in sn or "fixed_headers" in sn:
-            return ("C10", "C05", "C04")
+        if "frame_status" in sn:
+            return "C05"
+        if "frame_headers" in sn or "frame_ok" in sn or "std_headers" in sn or "fixed_headers" in sn:
+            return ("C10", "C05")
         if "delivered_in_full" in sn or "one_response" in sn:
             return ("C05", "C04", "C02", "C03")
         if "is_bad_request" in sn or "one_bad_request" in sn:
